@@ -56,6 +56,8 @@ void TsanEndEpisode(std::vector<RaceReport> *races, uint64_t *static_accesses,
 void TsanTaskStart(int task);
 // Function-entry sampling interval for the current episode (0 = off).
 void TsanSetFuncSampling(uint64_t mean_interval, uint64_t seed);
+// Sampled preemption points at accesses to non-static memory (0 = none).
+void TsanSetAccessSampling(uint64_t mean_interval);
 // Static storage bounds (from /proc/self/maps) and symbol lookup.
 bool TsanIsStatic(uintptr_t addr);
 std::string TsanSymbolOf(uintptr_t addr);
